@@ -14,16 +14,16 @@ intro = f"""### 11.5 Which seeded change is caught by which check
 
 Source: `./selftest` (quick tier unless the entry says otherwise), `/verif/seeded/RESULTS.json`. "seeded" = written
 by a fresh sub-agent that was given only the property text and a scratch checkout without the contract files
-(three rounds: m1/m2 early, m3/m4 against the tree after the fixes); "reverse of <commit>" = the inverse of
+(four rounds: m1/m2 early, m3/m4 against the tree after the fixes, m5/m6 last, with the additional request to avoid the kinds of change the earlier rounds had produced); "reverse of <commit>" = the inverse of
 one of the `fix:` commits (the defect it repaired comes back); "own-" = a canary written by the author. Every
 change compiles and passes the 84 baseline tests. Last run: {n['CAUGHT']} caught, {n['MISSED']} missed{(' (' + ', '.join(missed) + ')') if missed else ''},
 {n['HOLDS']} where the property holds with the change applied (C03-m1, see correction 15){('; not run: ' + ', '.join(other)) if other else ''}.
-Several third-round changes were missed at first and are caught by contracts added because of them - each
+Several third- and fourth-round changes were missed at first and are caught by contracts added because of them - each
 addition is a clause the property text asks for, not a special case of the seed: C06-m1 (later rating
 groups must not alter earlier final-unit indications), C12-m4 (a successful create registers the
 notification URI), C09-m4 (no subscriber lock across the consumer callback), C04-m4 (no reflect method on
 the zero Value), C05-m4 (ENUMERATED decoded as two's complement), C10-m3 (the sequence number does not
-wrap), C14-m4 (needs the bounded two-record lemma, thorough tier). C03-m3 is a change in the BER encoder and is
+wrap), C14-m4 (needs the bounded two-record lemma, thorough tier); from the fourth round C09-m5/m6 (guarded-by on the sequence number read-back and on the session-table lookups of update and release), C10-m6 (the number in the reference is the CHF-wide sequence number), C16-m6 (no value is built from an element that does not fit the input), C02-m6 (the IPv4/IPv6/FQDN consumer identification in the record), C20-m5 (`Config.Validate` is now checked against its body instead of being trusted). C03-m3 is a change in the BER encoder and is
 caught by C04's encoder contracts, on which C03's "complete BER value" clause rests; C18-m2 (re-enabled
 watchdog tasks: goroutines are not modelled) has no patch for the fixed tree and would be missed. Most
 violations are reported with `no-failing-input-found`: the replay harness only builds inputs for functions
